@@ -63,3 +63,9 @@ func (e *ExecutionEngine) VerifPlanCacheLen() int {
 func (e *ExecutionEngine) VerifPurgePlanCache() {
 	e.executionPlanCache.Purge()
 }
+
+// VerifResizePlanCache changes the capacity of the plan cache (NewExecutionEngine hard-codes 1024), so that
+// LRU eviction can be reached with a handful of requests. Returns the number of evicted plans.
+func (e *ExecutionEngine) VerifResizePlanCache(size int) int {
+	return e.executionPlanCache.Resize(size)
+}
